@@ -267,3 +267,27 @@ func ctrInv(s *seqCounters) bool {
 //@   wiring
 //@   requires ch.masterTimescale != 0
 //@   keep divzero
+
+// Upload of an init segment (C08, receiver): the sample-entry lookups cannot index an empty
+// stsd or parameter-set list.
+//@ func (*channel).addInitDataAndUpdateTimescale
+//@   wiring
+//@   keep index: stsd.Children[0]
+//@   callsite extractVideoData requires hasSampleEntry: len(arg0.Children) >= 1
+//@   callsite extractAudioData requires hasSampleEntry: len(arg0.Children) >= 1
+//@   callsite extractTextData requires hasSampleEntry: len(arg0.Children) >= 1
+
+//@ func extractVideoData
+//@   wiring
+//@   requires stsd != nil && len(stsd.Children) >= 1
+//@   keep index
+
+//@ func extractAudioData
+//@   wiring
+//@   requires stsd != nil && len(stsd.Children) >= 1
+//@   keep index
+
+//@ func extractTextData
+//@   wiring
+//@   requires stsd != nil && len(stsd.Children) >= 1
+//@   keep index
